@@ -193,6 +193,37 @@ func shapedScenario(g *Gen, which int) Case {
 		} else {
 			steps = []interface{}{cmd("rename", "d0", "d9"), obj("cmd", "remove", "args", hxs([]string{"d9"}), "files", false), cmd("probe")}
 		}
+	case 12, 13:
+		// build root and overlay directories under other names than the defaults; a process in
+		// the configured build root blocks unmount, one in a directory that merely carries a
+		// default name does not
+		cfg["buildRoot"] = hx("broot")
+		cfg["workdir"] = hx("ovl/w")
+		cfg["upperdir"] = hx("ovl/u")
+		for _, n := range []string{"b0", "d0"} {
+			lp := VB + "/layers/" + n
+			conf := "import proc /proc /proc\n"
+			if n == "d0" {
+				conf = "base b0\n\n" + conf
+				t.dir(lp + "/ovl/w")
+				t.dir(lp + "/ovl/u")
+				t.dir(lp + "/broot")
+			} else {
+				for _, d := range []string{"bin", "etc", "lib", "opt", "root", "sbin", "usr", "proc"} {
+					t.dir(lp + "/broot/" + d)
+				}
+			}
+			t.file(lp+"/layerconfig", conf)
+			t.dir(lp + "/build/usr")             // the user's own directory called "build"
+			t.dir(lp + "/overlayfs/upperdir")    // … and one called like the default upper directory
+		}
+		um := obj("cmd", "umount", "args", hxs([]string{"d0"}), "all", false)
+		if which == 12 {
+			um["users"] = []interface{}{user("d0", 1, g.Pick("broot/usr", "broot", "ovl/u"))}
+		} else {
+			um["users"] = []interface{}{user("d0", 1, g.Pick("build/usr", "build", "overlayfs/upperdir"))}
+		}
+		steps = []interface{}{cmd("mount", "d0"), cmd("probe"), um, cmd("probe"), umountAll(), cmd("probe")}
 	default:
 		// export directory names that differ from the layer's own directory names, explicit
 		// export directives, then rename and remove
@@ -211,7 +242,7 @@ func shapedScenario(g *Gen, which int) Case {
 
 func init() {
 	register("scn-directed", func(g *Gen, tier string, emit func(Case)) {
-		for w := 0; w < 12; w++ {
+		for w := 0; w < 15; w++ {
 			emit(shapedScenario(g, w))
 		}
 		for _, imp := range directedImports {
